@@ -36,12 +36,20 @@ pub enum Sk {
     BoxDyn,
     BoxDynSend,
     BoxDynSendSync,
+    BoxPtyFile,
+    BoxTmpFile,
+    BoxStdout,
+    BoxStderr,
     Stdout,
     Stderr,
     StdoutLock,
     StderrLock,
 }
-const ALL_SK: [Sk; 12] = [
+const ALL_SK: [Sk; 16] = [
+    Sk::BoxPtyFile,
+    Sk::BoxTmpFile,
+    Sk::BoxStdout,
+    Sk::BoxStderr,
     Sk::BoxDynSend,
     Sk::BoxDynSendSync,
     Sk::PtyFile,
@@ -66,6 +74,10 @@ fn sk_name(s: Sk) -> &'static str {
         Sk::BoxDyn => "box_dyn_write",
         Sk::BoxDynSend => "box_dyn_write_send",
         Sk::BoxDynSendSync => "box_dyn_write_send_sync",
+        Sk::BoxPtyFile => "boxed_file_on_pty",
+        Sk::BoxTmpFile => "boxed_file_on_disk",
+        Sk::BoxStdout => "boxed_stdout",
+        Sk::BoxStderr => "boxed_stderr",
         Sk::Stdout => "stdout",
         Sk::Stderr => "stderr",
         Sk::StdoutLock => "stdout_lock",
@@ -134,10 +146,10 @@ impl Model {
     }
     fn is_tty(&self, s: Sk) -> bool {
         match s {
-            Sk::PtyFile | Sk::MutPtyFile => true,
-            Sk::TmpFile | Sk::MutTmpFile | Sk::Vec | Sk::BoxDyn | Sk::BoxDynSend | Sk::BoxDynSendSync => false,
-            Sk::Stdout | Sk::StdoutLock => self.fd_tty[0],
-            Sk::Stderr | Sk::StderrLock => self.fd_tty[1],
+            Sk::PtyFile | Sk::MutPtyFile | Sk::BoxPtyFile => true,
+            Sk::TmpFile | Sk::MutTmpFile | Sk::Vec | Sk::BoxDyn | Sk::BoxDynSend | Sk::BoxDynSendSync | Sk::BoxTmpFile => false,
+            Sk::Stdout | Sk::StdoutLock | Sk::BoxStdout => self.fd_tty[0],
+            Sk::Stderr | Sk::StderrLock | Sk::BoxStderr => self.fd_tty[1],
         }
     }
     /// The decision as the property states it.
@@ -331,6 +343,10 @@ fn with_stream<R>(fds: &Fds, sk: Sk, f: &mut dyn FnMut(&mut dyn ErasedRaw) -> R)
             let b: Box<dyn Write + Send + Sync> = Box::new(Vec::<u8>::new());
             f(&mut Holder(Some(b)))
         }
+        Sk::BoxPtyFile => f(&mut Holder(Some(Box::new(fds.file(true))))),
+        Sk::BoxTmpFile => f(&mut Holder(Some(Box::new(fds.file(false))))),
+        Sk::BoxStdout => f(&mut Holder(Some(Box::new(std::io::stdout())))),
+        Sk::BoxStderr => f(&mut Holder(Some(Box::new(std::io::stderr())))),
         Sk::Stdout => f(&mut Holder(Some(std::io::stdout()))),
         Sk::Stderr => f(&mut Holder(Some(std::io::stderr()))),
         Sk::StdoutLock => f(&mut Holder(Some(std::io::stdout().lock()))),
@@ -1129,9 +1145,9 @@ fn sweep(child: &mut Child, seed: u64) -> (u64, Option<(Vec<EOp>, EViolation)>) 
         ops.push(EOp::Retarget(1, tty));
         ops.push(EOp::Retarget(2, tty));
         let kinds: &[Sk] = if tty {
-            &[Sk::PtyFile, Sk::MutPtyFile, Sk::Stdout, Sk::Stderr, Sk::StdoutLock, Sk::StderrLock]
+            &[Sk::PtyFile, Sk::MutPtyFile, Sk::BoxPtyFile, Sk::BoxStdout, Sk::BoxStderr, Sk::Stdout, Sk::Stderr, Sk::StdoutLock, Sk::StderrLock]
         } else {
-            &[Sk::TmpFile, Sk::MutTmpFile, Sk::Vec, Sk::BoxDyn, Sk::BoxDynSend, Sk::BoxDynSendSync, Sk::Stdout, Sk::Stderr, Sk::StdoutLock, Sk::StderrLock]
+            &[Sk::TmpFile, Sk::MutTmpFile, Sk::BoxTmpFile, Sk::BoxStdout, Sk::BoxStderr, Sk::Vec, Sk::BoxDyn, Sk::BoxDynSend, Sk::BoxDynSendSync, Sk::Stdout, Sk::Stderr, Sk::StdoutLock, Sk::StderrLock]
         };
         for k in kinds {
             ops.push(EOp::Choice(*k));
@@ -1466,6 +1482,101 @@ fn c17std_one(fds: &Fds, handle: u8, fg: u8, bg: u8, data: &[u8]) -> Result<(), 
     }
 }
 
+enum SocketErr {
+    Harness(String),
+    Violation(String),
+}
+
+fn socket_short_write(fg: u8, bg: u8) -> Result<(), SocketErr> {
+    use anstyle_wincon::WinconStream;
+    use std::io::Read;
+    let color = |c: u8| if c == 0 { None } else { Some(crate::simw::ANSI_COLORS[(c - 1) as usize % 16]) };
+    let mut sv = [0i32; 2];
+    if unsafe { libc::socketpair(libc::AF_UNIX, libc::SOCK_STREAM, 0, sv.as_mut_ptr()) } != 0 {
+        return Err(SocketErr::Harness("socketpair failed".into()));
+    }
+    let mut wr = unsafe { File::from_raw_fd(sv[0]) };
+    let mut rd = unsafe { File::from_raw_fd(sv[1]) };
+    for fd in sv {
+        unsafe {
+            let fl = libc::fcntl(fd, libc::F_GETFL);
+            libc::fcntl(fd, libc::F_SETFL, fl | libc::O_NONBLOCK);
+        }
+    }
+    // fill the send buffer with filler bytes
+    let filler = [b'.'; 4096];
+    let mut filled = 0usize;
+    loop {
+        match wr.write(&filler) {
+            Ok(n) if n > 0 => filled += n,
+            _ => break,
+        }
+        if filled > 64 << 20 {
+            return Err(SocketErr::Harness("socket never filled up".into()));
+        }
+    }
+    // make some room: drain 64 KiB on the reading side
+    let mut drained = 0usize;
+    let mut buf = vec![0u8; 65536];
+    while drained < 65536 {
+        match rd.read(&mut buf[..65536 - drained]) {
+            Ok(n) if n > 0 => drained += n,
+            _ => break,
+        }
+    }
+    let data: Vec<u8> = (0..(4usize << 20)).map(|i| b'a' + (i % 23) as u8).collect();
+    let r = catch(|| wr.write_colored(color(fg), color(bg), &data));
+    // everything that arrived: the rest of the filler, then the frame
+    let mut arrived = Vec::new();
+    loop {
+        match rd.read(&mut buf) {
+            Ok(n) if n > 0 => arrived.extend_from_slice(&buf[..n]),
+            _ => break,
+        }
+    }
+    let rest_filler = filled - drained;
+    if arrived.len() < rest_filler || arrived[..rest_filler].iter().any(|b| *b != b'.') {
+        return Err(SocketErr::Harness("filler accounting does not add up".into()));
+    }
+    let frame = &arrived[rest_filler..];
+    match r {
+        Ok(Ok(n)) => {
+            if n > data.len() {
+                return Err(SocketErr::Violation(format!("File over a nearly full socket: write_colored(fg={fg}, bg={bg}, 4 MiB) reported {n} bytes")));
+            }
+            crate::c17::framing_ok(frame, &data, n, fg, bg).map_err(|why| {
+                SocketErr::Violation(format!(
+                    "File over a nearly full non-blocking socket: write_colored(fg={fg}, bg={bg}, 4 MiB) -> Ok({n}), {} bytes arrived, ending in {:?}: {why}",
+                    frame.len(),
+                    lossy(&frame[frame.len().saturating_sub(12)..])
+                ))
+            })
+        }
+        Ok(Err(_)) => {
+            // failed (the reset did not fit): what arrived must be a prefix of <codes><data prefix>[<reset>]
+            let mut codes = Vec::new();
+            let _ = anstyle_wincon::ansi::write_colored(&mut codes, color(fg), color(bg), b"");
+            let reset_len = if fg == 0 && bg == 0 { 0 } else { 4 };
+            let prefix_codes = &codes[..codes.len() - reset_len];
+            let ok = if frame.len() <= prefix_codes.len() {
+                prefix_codes.starts_with(frame)
+            } else {
+                frame.starts_with(prefix_codes) && {
+                    let body = &frame[prefix_codes.len()..];
+                    let m = body.iter().zip(data.iter()).take_while(|(a, b)| a == b).count();
+                    codes[codes.len() - reset_len..].starts_with(&body[m..])
+                }
+            };
+            if ok {
+                Ok(())
+            } else {
+                Err(SocketErr::Violation(format!("File over a nearly full socket: the failed write_colored(fg={fg}, bg={bg}) left {} bytes that are not a prefix of a legal frame", frame.len())))
+            }
+        }
+        Err(_) => Err(SocketErr::Violation(format!("File over a nearly full socket: write_colored(fg={fg}, bg={bg}) panicked"))),
+    }
+}
+
 const C17STD_DATA: [&[u8]; 5] = [b"", b"x", b"hello, world\n", "caf\u{e9} \u{6f22}\u{5b57}".as_bytes(), b"two\nlines and a tail without newline"];
 
 /// `vsim c17std <report>`: all 17 x 17 colour pairs x 4 std handles x a few data strings (one of
@@ -1557,6 +1668,23 @@ pub fn c17std_main(report: &str) -> i32 {
                             break;
                         }
                     }
+                }
+            }
+        }
+    }
+    // a real short write: a File over the writing end of a non-blocking socket pair whose send
+    // buffer is nearly full accepts only a prefix of a large payload (and nothing of what follows).
+    // Whatever the call returns, what arrived on the other end must be a legal frame: complete
+    // (<codes><n data bytes><reset>) if it returned Ok(n), a prefix of such a frame if it failed.
+    if violation.is_null() {
+        for (fg, bg) in [(3u8, 0u8), (12, 4)] {
+            evals += 1;
+            match socket_short_write(fg, bg) {
+                Ok(()) => {}
+                Err(SocketErr::Harness(_)) => break, // no socket pair here: skip, not a verdict
+                Err(SocketErr::Violation(detail)) => {
+                    violation = json!({"handle": 8, "fg": fg, "bg": bg, "data_index": 0, "data_hex": "", "detail": detail});
+                    break;
                 }
             }
         }
